@@ -24,6 +24,15 @@ def logu(rnd, lo, hi):
     return math.exp(rnd.uniform(math.log(lo), math.log(hi)))
 
 
+def strat(rnd, lo, hi, n):
+    """n log-uniform values in [lo, hi], one from each of n equal slices of the logarithm (every decade is visited
+    when n reaches the number of decades; the slices are shifted by a random phase otherwise)"""
+    a, b = math.log(lo), math.log(hi)
+    ph = rnd.random()
+    out = [math.exp(a + (b - a) * (((i + ph) % n) + rnd.random() * 0.999) / n) for i in range(n)]
+    return [min(max(x, lo), hi) for x in out]
+
+
 def around(rnd, b, k):
     """k doubles on each side of b: adjacent ones and some at relative distance up to 1e-9"""
     lo = [ulps(b, -i) for i in (1, 2, 3)] + [b * (1 - logu(rnd, 1e-15, 1e-9)) for _ in range(k)]
@@ -38,13 +47,13 @@ def onevar_points(c, rnd, n):
     if cls == "zero":
         return [0.0, -0.0]
     if cls == "tiny":
-        return [1e-14, ulps(1e-14, 1)] + [logu(rnd, 1e-14, 1e-10) for _ in range(n)]
+        return [1e-14, ulps(1e-14, 1)] + strat(rnd, 1e-14, 1e-10, n)
     if cls == "small":
-        return [logu(rnd, 1e-10, 1e-2) for _ in range(n)]
+        return strat(rnd, 1e-10, 1e-2, n)
     if cls == "belowQuarter":
-        return [0.25 * (1 - logu(rnd, 1e-9, 0.9)) for _ in range(n)]
+        return [0.25 * (1 - d) for d in strat(rnd, 1e-9, 0.9, 2 * n)]
     if cls == "aboveQuarter":
-        return [0.25 * (1 + logu(rnd, 1e-9, 0.5)) for _ in range(n)]
+        return [0.25 * (1 + d) for d in strat(rnd, 1e-9, 0.5, 2 * n)]
     if cls == "quarter":
         return [0.25]
     if cls == "quarterLo":
@@ -54,13 +63,13 @@ def onevar_points(c, rnd, n):
     if cls == "mid":
         return [rnd.uniform(0.3, 0.9) for _ in range(n)]
     if cls == "nearOneLo":
-        return [1 - logu(rnd, 1e-3, 0.09) for _ in range(n)]
+        return [1 - d for d in strat(rnd, 1e-3, 0.09, n)]
     if cls == "nearOneHi":
-        return [1 + logu(rnd, 1e-3, 0.09) for _ in range(n)]
+        return [1 + d for d in strat(rnd, 1e-3, 0.09, n)]
     if cls == "one":
         return [1.0, ulps(1.0, 1), ulps(1.0, -1)]
     if cls == "winDeep":
-        return [1 + rnd.choice([-1, 1]) * logu(rnd, 1e-16, w) for _ in range(n)]
+        return [1 + rnd.choice([-1, 1]) * d for d in strat(rnd, 1e-16, w, 2 * n)]
     if cls in ("winLoOut", "winLoIn"):
         lo, hi = around(rnd, lo_edge, n)
         return lo if cls == "winLoOut" else hi
@@ -80,9 +89,9 @@ def onevar_points(c, rnd, n):
         lo, hi = around(rnd, EPS, n)
         return lo if cls == "epsEdgeLo" else hi
     if cls == "large":
-        return [logu(rnd, 100, 1e8) for _ in range(n)]
+        return strat(rnd, 100, 1e8, n)
     if cls == "huge":
-        return [logu(rnd, 1e8, 1e12) for _ in range(n)] + [1e12]
+        return strat(rnd, 1e8, 1e12, n) + [1e12]
     if cls == "negative":
         return [-logu(rnd, 1e-14, 1e12) for _ in range(n)] + [-1.0, -0.25]
     raise KeyError(cls)
